@@ -250,7 +250,8 @@ def truthy(v):
 
 class History:
     """generates packets and keeps the SPEC state: plain Python dicts/lists, last writer wins"""
-    def __init__(self, rng, dialect, view, fault_rate=0.08, values_in_range=True):
+    def __init__(self, rng, dialect, view, fault_rate=0.08, values_in_range=True, garbage_w=2):
+        self.garbage_w = garbage_w
         self.rng = rng; self.dialect = dialect; self.view = view; self.ids = TABLE_IDS[dialect]
         self.packets = []          # (type id, time bits, payload, label)
         self.ents = collections.OrderedDict()     # id -> dict(type, client, base, pose)
@@ -463,11 +464,25 @@ class History:
         if r < 0.2: self.emit('EntityProperty', struct.pack('<II', unk, 0) + binstream(b'\x00'), 'fault-unknown-entity')
         elif r < 0.35: self.emit('EntityMethod', struct.pack('<II', unk, 0) + binstream(b''), 'fault-unknown-entity')
         elif r < 0.5 and self.ents:
+            # an id past the end of the table: just past it, far past it, and ids that a signed or truncated read would fold back into
+            # the table (2^32-k, 2^31, 2^16+i), carrying bytes that DO decode for the member such a fold would pick
             eid = self.rng.choice([e for e in self.ents if e >= 0] or [unk])
-            self.emit('EntityProperty', struct.pack('<II', eid, 200 + self.rng.randrange(50)) + binstream(b'\x01\x02'), 'fault-index')
+            props = self.view.exposed(self.ents[eid]['type']) if eid in self.ents else []
+            n = len(props); k = self.rng.randrange(1, n + 1) if n else 1
+            idx = self.rng.choice([n, n + 1, 200 + self.rng.randrange(50), 0x7fffffff, 0x80000000, 2 ** 32 - 1, 2 ** 32 - k, 2 ** 32 - k, 2 ** 16 + n - k, 2 ** 8 + n - k])
+            data = b'\x01\x02'
+            if n and self.rng.random() < 0.7:
+                pn, pt = props[n - k]; data = gen_types.wire_of(pt, self.val(pt))
+            self.emit('EntityProperty', struct.pack('<II', eid, idx) + binstream(data), 'fault-index')
         elif r < 0.6 and self.ents:
             eid = self.rng.choice([e for e in self.ents if e >= 0] or [unk])
-            self.emit('EntityMethod', struct.pack('<II', eid, 250) + binstream(b'\x01\x02'), 'fault-index')
+            ms = self.view.methods(self.ents[eid]['type']) if eid in self.ents else []
+            n = len(ms); k = self.rng.randrange(1, n + 1) if n else 1
+            idx = self.rng.choice([n, n + 1, 250, 0x7fffffff, 0x80000000, 2 ** 32 - 1, 2 ** 32 - k, 2 ** 32 - k, 2 ** 16 + n - k, 2 ** 8 + n - k])
+            data = b'\x01\x02'
+            if n and self.rng.random() < 0.7:
+                name, args, hdr = ms[n - k]; data = b''.join(gen_types.wire_of(t, self.val(t), max(hdr, 0)) for a, t in args)
+            self.emit('EntityMethod', struct.pack('<II', eid, idx) + binstream(data), 'fault-index')
         elif r < 0.75:
             cls = self.rng.choice(['EntityProperty', 'EntityMethod', 'Position', 'EntityCreate', 'BasePlayerCreate', 'NestedProperty'])
             if cls in self.ids: self.emit(cls, bytes(self.rng.randrange(256) for _ in range(self.rng.randrange(0, 7))), 'fault-truncated')
@@ -488,9 +503,9 @@ class History:
         if self.rng.random() < 0.7: self.cell_player(self.player if self.rng.random() < 0.7 else None)
         for _ in range(self.rng.randrange(1, 5)): self.create_entity()
         if self.dialect == 'wowp':
-            ops = [(self.update_prop, 10), (self.call_method, 10), (self.position, 5), (self.noise, 10), (self.base_player, 3), (lambda: self.call_method(True), 2)]
+            ops = [(self.update_prop, 10), (self.call_method, 10), (self.position, 5), (self.noise, 10), (self.base_player, 3), (lambda: self.call_method(True), self.garbage_w)]
         else: ops = [(self.create_entity, 6), (self.update_prop, 22), (self.call_method, 18), (self.nested, 22), (self.position, 8),
-               (self.player_position, 6), (self.noise, 8), (self.base_player, 1), (self.cell_player, 1), (lambda: self.call_method(True), 2)]
+               (self.player_position, 6), (self.noise, 8), (self.base_player, 1), (self.cell_player, 1), (lambda: self.call_method(True), self.garbage_w)]
         tot = sum(w for _, w in ops)
         while len(self.packets) < n:
             if self.rng.random() < self.fault_rate: self.fault(); continue
